@@ -218,18 +218,137 @@ def shard_pool(seed, n):
     return res
 
 
+# ---- a holder that is found dead WHILE a newcomer asks for its id or name -------------------------------------------------
+def stale_holder_case(tc, level, sub, gone, how, newcomer, res=None):
+    """conn 0 = observer of CLIENT_CLOSED / CLIENT_INFO; conn 1 = holder of id 12 / name 'held' (unique), subscribed to `sub`
+    (the manager's log types or everything); conn 2 = bystander; conn 3 = newcomer asking for the holder's id and/or name.
+    The holder's peer is gone (writes to it fail) but nothing has told the manager yet; only the newcomer is served.  If a
+    log line written while the newcomer's request is checked fails on the holder, the holder is removed and reported closed
+    in the middle of that check.  Observation only: once the observer has been told that the holder is closed, a request for
+    its id / name that is decided AFTER that notice must not be refused because of it."""
+    import logging
+
+    from vlib import proto as P
+    from vlib.common import Violation
+    from vlib.simnet import LISTENER, Sim
+
+    lv = {"debug": logging.DEBUG, "info": logging.INFO, "error": logging.ERROR}[level]
+    trace = {"kind": "stale-holder", "tc": tc, "level": level, "sub": sub, "gone": gone, "how": how, "newcomer": newcomer}
+    sim = Sim(timecode=tc, send_msg_timing=False, log_level=lv)
+    try:
+        def pump():
+            for _ in range(200):
+                ready = ([LISTENER] if sim.listener.backlog else []) + [c for c in sim.conns if sim.readable(c)]
+                if not ready:
+                    return
+                sim.step(ready, [c for c in sim.conns], 0.0)
+                if sim.dead:
+                    raise Violation("manager-died/" + type(sim.dead_exc).__name__, sim.dead.strip().splitlines()[-1], trace)
+
+        def connect(mid, name, multi=0):
+            c = sim.open()
+            c.send(P.build(P.MT_CONNECT_V2, P.CONNECT_V2.pack(0, 0, multi, mid, 1, P.cstr(name)), src_mod=mid, timecode=tc))
+            return c
+
+        obs = connect(90, b"observer")
+        for t in (P.MT_CLIENT_CLOSED, P.MT_CLIENT_INFO, 42):  # 42 = RTMA_LOG_ERROR: the refusal is announced by an error record
+            obs.send(P.build(P.MT_SUBSCRIBE, P.SUBSCRIBE.pack(t), src_mod=90, timecode=tc))
+        holder = connect(12, b"held")
+        for t in sub:
+            holder.send(P.build(P.MT_SUBSCRIBE, P.SUBSCRIBE.pack(t), src_mod=12, timecode=tc))
+        by = connect(13, b"")
+        pump()
+        for c in (obs, holder, by):
+            c.take()
+        # the holder's peer goes away; the manager has not been told (its socket is not served in the next round)
+        holder.m.peer_gone_mode = gone
+        if how == "rst":
+            holder.c.abort()
+        else:
+            holder.c.rx.clear()
+            holder.c.close()
+        rid, rname = {"same-id": (12, b"fresh"), "same-name": (14, b"held"), "same-id-and-name": (12, b"held")}[newcomer]
+        new = sim.open()
+        sim.step([LISTENER], list(sim.conns), 0.0)
+        new.send(P.build(P.MT_CONNECT_V2, P.CONNECT_V2.pack(0, 0, 0, rid, 1, P.cstr(rname)), src_mod=rid, timecode=tc))
+        sim.step([new], list(sim.conns), 0.0)
+        if sim.dead:
+            raise Violation("manager-died/" + type(sim.dead_exc).__name__, sim.dead.strip().splitlines()[-1], trace)
+        new_frames = P.parse_stream(bytearray(new.take()), tc)
+        acked = any(f.msg_type == P.MT_ACKNOWLEDGE and f.src_mod_id == 0 for f in new_frames)
+        refused = new.manager_closed and not acked
+        stream = [f for f in P.parse_stream(bytearray(obs.take()), tc) if f.src_mod_id == 0]
+        hp, np_ = holder.c.addr[1], new.c.addr[1]
+        pos_holder_closed = pos_new_closed = pos_error = None
+        for k, f in enumerate(stream):
+            if f.msg_type == P.MT_CLIENT_CLOSED:
+                port = P.parse_client_info(f.payload)["port"]
+                if port == hp and pos_holder_closed is None:
+                    pos_holder_closed = k
+                if port == np_ and pos_new_closed is None:
+                    pos_new_closed = k
+            elif f.msg_type == 42 and pos_error is None:
+                pos_error = k
+        if res is not None:
+            res.evaluations += 1
+            res.count("stale-holder-cases")
+            if pos_holder_closed is not None:
+                res.count("stale-holder-cases-holder-found-dead-during-the-request")
+            res.shape("stale-holder", level, tuple(sub), gone, newcomer, pos_holder_closed is not None, refused)
+        # the refusal is announced by an error record BEFORE the newcomer is removed.  If that record itself is what fails on
+        # the holder, the holder is reported closed after it (the verdict was taken while the holder was believed alive: fine).
+        # A holder reported closed BEFORE the refusal is announced was known to be gone when the verdict was taken.
+        if refused and pos_holder_closed is not None and pos_error is not None and pos_holder_closed < pos_error:
+            raise Violation("reuse/refused-because-of-a-module-already-reported-closed",
+                            f"log level {level}: the holder of id 12 / name 'held' (peer gone, subscribed to {sub}) was reported CLIENT_CLOSED "
+                            f"while the request of a newcomer ({newcomer}) was being checked, and only then the newcomer was refused "
+                            f"(error record and its CLIENT_CLOSED follow) - observers see the holder leave and its id/name still refused", trace)
+        pump()
+    finally:
+        sim.close()
+
+
+def stale_holder_cases():
+    import itertools
+
+    from vlib import proto as P
+
+    subs = ([45], [44, 45], [P.ALL_MESSAGE_TYPES], [P.MT_CLIENT_INFO])
+    return list(itertools.product((False, True), ("debug", "info", "error"), subs, ("epipe", "reset", "first-ok"), ("fin", "rst"),
+                                  ("same-id", "same-name", "same-id-and-name")))
+
+
+def shard_stale(idx, nshards):
+    from vlib.common import Result, Violation
+
+    res = Result()
+    for i, case in enumerate(stale_holder_cases()):
+        if i % nshards != idx:
+            continue
+        try:
+            stale_holder_case(*case, res=res)
+        except Violation as v:
+            res.add_finding(v.key, v.what, v.trace)
+    return res
+
+
 def shard_extra(kind, *a):
-    return shard_table(*a) if kind == "table" else shard_pool(*a)
+    return {"table": shard_table, "pool": shard_pool, "stale": shard_stale}[kind](*a)
 
 
 def extra(ctx):
     from vlib.common import derive_seed, run_shards
 
     n = ctx.scale(3, 40)
-    res = run_shards(shard_extra, [("table", i, 16) for i in range(16)] + [("pool", derive_seed(ctx.seed, 700 + i), n) for i in range(16)])
+    res = run_shards(shard_extra, [("table", i, 16) for i in range(16)] + [("pool", derive_seed(ctx.seed, 700 + i), n) for i in range(16)]
+                     + [("stale", i, 8) for i in range(8)])
     res.notes.append("full dynamic-id pool: all 100 dynamic ids assigned (after generated connects/departures that move the rotating "
                      "start), 0-3 requests against the full pool, then generated cycles in which the k-th most recently assigned "
                      "holder leaves (DISCONNECT/FIN/RST) and a new request for a dynamic id must be accepted at once")
+    res.notes.append("table of 432 cases: a holder of an id / name whose peer is gone is found dead (a log line about the request fails on it) "
+                     "while a newcomer's request for that id / name is being checked, log levels debug/info/error x what the holder subscribes "
+                     "to x how its writes fail x what the newcomer asks for; observation only: a holder reported closed before the verdict "
+                     "cannot be the reason of a refusal")
     res.notes.append("sub-domain enumerated completely: 7 protocol stages x every way of leaving (DISCONNECT, FIN/RST clean, after 5 "
                      "byte offsets of a frame, discovered on write with EPIPE/ECONNRESET/delayed failure, injected failure at 7 byte "
                      "offsets of the outgoing frame) x (alone | with a second departing module of 3 stages x 3 ways) x 3 service "
@@ -241,6 +360,8 @@ def extra(ctx):
 def _replay_extra(tr):
     from vlib.script import run_script
 
+    if tr.get("kind") == "stale-holder":
+        return stale_holder_case(tr["tc"], tr["level"], tr["sub"], tr["gone"], tr["how"], tr["newcomer"])
     run_script(tr["cfg"], tr["ops"], DEPARTURE.oracles, "C07")
 
 
